@@ -108,7 +108,8 @@ def r1_gate_before_work(ctx):
                 R.check(_null_id(tr, b, c.args[0]), "C02.R1", "limit:id-null", "the -32010 refusal carries Id::Null", "the too-big-batch refusal does not carry Id::Null", where(c))
                 R.check(not b.can_reach(c.bb, d.bb), "C02.R1", "limit:no-dispatch", "after the refusal nothing is executed", "RpcServiceT::batch is reachable after the too-big refusal", where(c))
     rb = F.one(r"^jsonrpsee_types::error::reject_too_big_batch_request$")
-    ok10 = any(op_const(a) and op_const(a).get("int") == "-32010" for c in rb.calls for a in c.args)
+    from .common import error_code_ints
+    ok10 = error_code_ints(ctx, rb) == {"-32010"}
     R.check(ok10, "C02.R1", "limit:code-value", "reject_too_big_batch_request uses -32010", "reject_too_big_batch_request does not use -32010", "%s:%d" % (rb.file, rb.lo))
     # (c) unparsable array
     parse = [c for c in b.calls_to(r"^serde_json::(de::)?from_slice$") if c.ga and c.ga[-1].startswith("std::vec::Vec<")]
